@@ -341,6 +341,10 @@ func GenTopLevel(r *RNG, depth int) (stmts []string, globals []string, feat map[
 	g.w("func tri(a int) (int, int, int) {\n\treturn a, a + 1, a + 2\n}\n")
 	g.w("func halfF(n int) float64 {\n\tif n > 100000 {\n\t\treturn 3\n\t}\n\treturn 1\n}\n")
 	g.w("func wrapB(n int) byte {\n\treturn 250\n}\n")
+	// locals of other numeric types at the same frame offsets in functions called one after the other: a local
+	// initialised from an untyped constant has its own type whatever an earlier call left in that stack cell
+	g.w("func scaleF(f float64) float64 {\n\tg2 := f * 2.0\n\tvar b2 byte = 200\n\tb2 += 100\n\treturn g2 + float64(b2)\n}\n")
+	g.w("func halfI(n int) int {\n\tk := 2\n\tj := 300\n\treturn n/k + j\n}\n")
 	nh := r.Intn(3)
 	for h := 0; h < nh; h++ {
 		g.w("func h%d(p int) int {\n", h)
@@ -367,6 +371,9 @@ func GenTopLevel(r *RNG, depth int) (stmts []string, globals []string, feat map[
 			g.trace()
 		}
 	}
+	g.w("sf := scaleF(1.5)\n")
+	g.w("hi := halfI(9)\n")
+	g.w("println(\"stale\", sf, hi, halfI(7))\n")
 	// functions declared after statements that allocated top-level locals; their outermost scope redeclares
 	// a variable of another numeric type together with a new one (valid Go: x stays float64)
 	for l := r.Intn(3); l > 0; l-- {
